@@ -1,7 +1,7 @@
 """C13 — Newtonian fluid models: linear viscous stress and its exact inverse."""
 from .. import common as C, models as M
 
-CLASSES = {'fluid_stress', 'fluid_strain_rate', 'fluid_not_linear', 'fluid_one_argument_bulk_not_zero', 'model_stub', 'model_inverse_composition'}
+CLASSES = {'fluid_stress', 'fluid_strain_rate', 'fluid_not_linear', 'fluid_one_argument_bulk_not_zero', 'model_stub', 'model_inverse_composition', 'fluid_map_real'}
 
 
 def run(tier):
@@ -18,8 +18,12 @@ def run(tier):
               stub_events=len([e for e in evs if e['e'] == 'Stub' and e['model'] != 'elastic']),
               note='integer viscosities and integer tensors make 2 mu D + mu_b tr(D) I exact; inverse exact for mu a power of two and mu_b = 2 mu, snapped otherwise; '
                    'both classes x 3 overloads x direct / abstract interface x 3 model types; one-argument constructor gives mu_b = +0')
+    mr = [e for e in evs if e['e'] == 'MapReal' and e['model'] != 'elastic']
+    chk.layer('B.maps', events=len(mr), combinations=len({(e['model'], e['fn'], e['num'], e['ov'], e['via']) for e in mr}), worst_ulps=max([e['ulps'] for e in mr] or [0]), budget=8,
+              note='2 models x forward / inverse x 3 model numeric types x 3 overload numeric types x direct / abstract interface on real tensors and viscosities with full mantissas, '
+                   'against 2 mu D + mu_b tr(D) I and its inverse in __float128, in ulps of the overload type')
     chk.layer('B', composition_events=len(cp), worst_err_eps_kappa=max([e['err_eps_kappa'] for e in cp] or [0]), budget=64)
-    chk.count(evaluations=len(fs) + len(ln) + sum(e['n'] for e in cp), distinct=len(fs) + len(ln) + len(cp))
+    chk.count(evaluations=len(fs) + len(ln) + sum(e['n'] for e in mr) + sum(e['n'] for e in cp), distinct=len(fs) + len(ln) + len(cp))
     chk.cov['rule'] = 'exact: 4 viscosities x 3 bulk viscosities x 2 tensors per (class, overload, call path, model type); linearity f(aX+bY) = a f(X) + b f(Y) on random integers; numeric: StrainRate(Stress(D)) ~ D'
     for e in fs[:2] + ln[:1] + cp[:1]:
         chk.sample(e)
